@@ -227,4 +227,41 @@ theorem naWrite_cv_self (m : Mem) (t x v : Nat) : cv (naWrite m t x v) t x = (m.
   simp only [cv, naWrite, upd_same]
   rw [View.get_set, if_pos rfl]
 
+/-! ### counters that only grow (`head_`, `tail_`): a stale load returns an earlier, smaller value -/
+
+theorem le_getLastD (l : List Msg) (d : Msg) (h : l.Pairwise (fun a b => a.val ≤ b.val)) (x : Msg) (hx : x ∈ l) :
+    x.val ≤ (l.getLastD d).val := by
+  induction l generalizing d with
+  | nil => cases hx
+  | cons a l ih =>
+    rw [List.pairwise_cons] at h
+    have hl : (a :: l).getLastD d = l.getLastD a := by
+      cases l <;> simp [List.getLastD]
+    rw [hl]
+    rcases List.mem_cons.1 hx with rfl | hx
+    · have hm : l.getLastD x ∈ x :: l := List.getLastD_mem_cons
+      rcases List.mem_cons.1 hm with hm | hm
+      · rw [hm]; exact Nat.le_refl _
+      · exact h.1 _ hm
+    · exact ih a h.2 hx
+
+/-- on a location whose successive values never decrease, a load - however stale - returns at most the latest value -/
+theorem load_le_latest {m m' : Mem} {t l k v : Nat} {o : MO} (hmono : (m.atom l).Pairwise (fun a b => a.val ≤ b.val))
+    (h : load m t l o k = some (v, m')) : v ≤ m.latestVal l := by
+  obtain ⟨msg, hmem, hv, _⟩ := load_some h
+  rw [hv]; exact le_getLastD _ _ hmono msg hmem
+
+/-- a read-modify-write that does not decrease the value (a successful `compare_exchange` to `head + 1`, `+= n`) keeps
+    the values of the location monotone -/
+theorem rmw_mono {m : Mem} {t l val : Nat} {o : MO} (hmono : (m.atom l).Pairwise (fun a b => a.val ≤ b.val))
+    (hv : m.latestVal l ≤ val) : ((rmw m t l o val).2.atom l).Pairwise (fun a b => a.val ≤ b.val) := by
+  have hat : (rmw m t l o val).2.atom l = m.atom l ++ [latest ((rmw m t l o val).2.atom l)] := by
+    simp [rmw, latest_append]
+  have hval : (latest ((rmw m t l o val).2.atom l)).val = val := rmw_latestVal_same m t l o val
+  rw [hat, List.pairwise_append]
+  refine ⟨hmono, by simp, ?_⟩
+  intro a ha b hb
+  simp at hb; subst hb
+  rw [hval]
+  exact Nat.le_trans (le_getLastD _ _ hmono a ha) hv
 end Otel.RelAcq
